@@ -98,6 +98,14 @@ class Run:
         if last in ("call_once", "call_mut", "call") and "ops::function" in sp and len(args) == 2 and isinstance(args[0], tuple) and args[0][:1] == ("closure",):
             a = args[1][1] if isinstance(args[1], tuple) and args[1][0] == "tuple" else [args[1]]
             return absint.call_closure(prog, args[0], list(a), self.handler, 1, True)
+        if sp.startswith("core::cmp::impls::<impl core::cmp::") and " for &" in sp and len(args) == 2 and is_struct(args[0]) and len(args[0]) > 5:
+            # `&A: PartialEq<&B>` etc. forward to A's impl
+            tr = sp.split("<impl ")[1].split(" for ")[0].split("<")[0]
+            for imp in prog.impl_for(tr, lambda ty: ty["k"] == "adt" and ty["d"] == args[0][5]):
+                fn = [it for it in imp["items"] if it["name"] == last and it.get("path") in prog._bodies_raw]
+                if fn:
+                    return absint.run(prog.body(fn[0]["path"]), 0, {1: args[0], 2: args[1]}, call=self.handler, prog=prog, inline=True)
+            return None
         if sp.endswith("MetaType::is_phantom") and len(args) == 1:
             self.log.append(("is_phantom", args[0]))
             return bool(self.scen.get("is_phantom", False))
